@@ -48,8 +48,13 @@ def unwrap(expr, wrappers, assigns, depth=0):
 
 def derives_from(expr, names, assigns, depth=0):
     """expr mentions one of `names`, directly or through single-assignment locals."""
+    # `self` as the receiver of a private helper call (self._asColumn(other)) is not a use of self's value
+    helper_recv = {id(c.func.value) for c in ast.walk(expr) if isinstance(c, ast.Call) and isinstance(c.func, ast.Attribute)
+                   and isinstance(c.func.value, ast.Name) and c.func.value.id == 'self' and c.func.attr.startswith('_') and not c.func.attr.startswith('__')}
     for n in ast.walk(expr):
         if isinstance(n, ast.Name):
+            if id(n) in helper_recv:
+                continue
             if n.id in names:
                 return True
             if depth < 4 and n.id in assigns:
@@ -68,6 +73,7 @@ def check_dunders(rep, rule, model, ci, dunders, wrappers, exceptions, other_pro
         fi = ci.methods.get(name)
         if fi is None:
             continue
+        fi = flat_method(ci, name)          # private helpers (also ones handed the superclass operator) read in place
         op, reflected = DUNDERS[name]
         params = fi.params
         if len(params) < 2:
